@@ -85,6 +85,36 @@ fn large_text_histories() -> Vec<History> {
             }
         }
     }
+    // capacities around every MiB-scale power of two (where an allocation-size rounding could sit): the promised room
+    // is there, and filling it exactly neither reallocates nor moves the text
+    for k in 21..=24u32 {
+        for mult in [1usize, 3] {
+            let base = mult << k;
+            if base > (24 << 20) {
+                continue;
+            }
+            for d in [0isize, 1, 2, 7, 8, 9, 15, 16, 17, 31, 32, 33, 4095, 4096, -1, -16] {
+                let n = (base as isize - d) as usize;
+                for variant in 0..3u8 {
+                    let fill = matches!(d, 0 | 1 | 15 | 16 | -1) && (k < 24 || variant == 0);
+                    let mut ops = match variant {
+                        0 => vec![Op::WithCapacity { slot: 0, n: Size::Abs(n), try_: false }],
+                        1 => vec![Op::New { slot: 0 }, Op::Reserve { slot: 0, n: Size::Abs(n), try_: true }],
+                        _ => vec![
+                            Op::FromText { slot: 0, via: Via::Str, text: "a heap text of thirty-two bytes.é".into() },
+                            Op::Reserve { slot: 0, n: Size::Abs(n), try_: false },
+                        ],
+                    };
+                    ops.push(Op::PushStr { slot: 0, text: Text::Lit("head-€".into()), try_: false });
+                    if fill {
+                        ops.push(Op::PushStr { slot: 0, text: Text::FillAll { unit: 'f' }, try_: false });
+                    }
+                    ops.push(Op::Compare { a: 0, b: 0 });
+                    out.push(History { ops, plan: Plan::default() });
+                }
+            }
+        }
+    }
     out
 }
 
@@ -144,13 +174,25 @@ pub fn c01(tier: Tier, seed: u64) -> Verdict {
 
 pub fn c02(tier: Tier, seed: u64) -> Verdict {
     let n = tier.pick(14_000, 400_000);
-    explore(
+    explore_with(
+        &|merged: &mut Merged| {
+            // "successful, failing or panicking": operations on shared buffers with every allocator request failing
+            // in turn (the copy made to stop sharing is the request that matters), on the catalogue and on histories
+            let cat = super::enumerators::catalogue(false);
+            let case = super::enumerators::fault_case("C02", false);
+            merged.merge(super::enumerators::run_catalogue("C02", &cat, &case));
+            if merged.violation.is_none() {
+                let nf = tier.pick(2500, 40_000);
+                let p = Profile { w_clone: 30, w_trunc: 14, ..Profile::faults() };
+                merged.merge(run_sharded("C02", seed, 100, nf, || history_strategy(&p), super::enumerators::fault_case("C02", false)));
+            }
+        },
         "C02",
         tier,
         seed,
         vec![(Profile::sharing(), n), (Profile::statics(), n / 3), (Profile { giant_sizes: true, callback_panics: true, lying_hints: true, w_extend: 12, ..Profile::sharing() }, n / 3)],
         |c| c.tags.contains("shared_mut"),
-        "sharing-heavy histories (clone weight x3, 4 slots); non-trivial = >= 1 step that mutates/truncates/shrinks/reserves/clears/reassigns/drops a handle while another live handle shares its heap buffer or static text; distinct history digests",
+        "sharing-heavy histories (clone weight x3, 4 slots), plus the operation catalogue and sharing-heavy histories re-run with each allocator request failing in turn; non-trivial = >= 1 step that mutates/truncates/shrinks/reserves/clears/reassigns/drops a handle while another live handle shares its heap buffer or static text; distinct history digests",
     )
 }
 
